@@ -9,7 +9,7 @@ namespace {
 /* solve-time options may change without a new setup(); structural ones are always followed by setup() */
 const char* SOLVE_TIME[] = {"cycle", "pre", "post", "max_iterations", "norm_type", "abs_tol", "rel_tol", "fmg_iterations",
                             "fmg_cycle"};
-const char* STRUCTURAL[] = {"extrapolation", "fmg", "divideBy2", "nr_exp", "stencil", "threads", "dirbc", "max_levels",
+const char* STRUCTURAL[] = {"extrapolation", "fmg", "divideBy2", "nr_exp", "stencil", "threads", "dirbc", "max_levels", "R0",
                             "cache", "reduction", "aniso"};
 
 Value set_op(const char* key, const Value& val)
@@ -42,7 +42,12 @@ Value random_set(Rng& g, bool structural, const SolverOpts& cur)
         default: return set_op("fmg_cycle", g.range(0, 2));
         }
     }
-    switch (g.below(10)) {
+    switch (g.below(11)) {
+    case 9: {
+        // the same number of nodes at other positions (only the inner radius moves)
+        static const double r0s[] = {1e-5, 1e-3, 0.05, 0.1};
+        return set_op("R0", r0s[g.below(4)]);
+    }
     case 0: return set_op("extrapolation", g.range(0, 3));
     case 1: return set_op("fmg", g.chance(0.5));
     case 2: return set_op("divideBy2", cur.divideBy2 == 0 ? 1 : 0);
@@ -80,6 +85,7 @@ void apply_set(SolverOpts& o, const std::string& key, const Value& v)
     else if (key == "dirbc") o.dirbc = v.as_bool();
     else if (key == "max_levels") o.max_levels = (int)v.as_int();
     else if (key == "reduction") o.reduction = v.as_double();
+    else if (key == "R0") o.R0 = v.as_double();
 }
 
 // what a user does between two solves: call the ONE setter of the option that changes (re-applying every option would
@@ -108,6 +114,7 @@ void apply_key(GMGPolar& s, const std::string& key, const SolverOpts& o)
     else if (key == "dirbc") s.DirBC_Interior(o.dirbc);
     else if (key == "max_levels") s.maxLevels(o.max_levels);
     else if (key == "reduction") s.threadReductionFactor(o.reduction);
+    else if (key == "R0") s.R0(o.R0);
     else apply_opts(s, o);
 }
 
